@@ -63,6 +63,7 @@ type faultSpec struct {
 	RsDelete    []string `json:"rs_delete"`    // replica-set deletions fail
 	RsCreate    bool     `json:"rs_create"`    // replica-set creation fails
 	ListFail    []string `json:"list_fail"`    // List calls for these kinds fail (reads: nothing is recorded)
+	GetFail     []string `json:"get_fail"`     // Get calls for these kinds fail with a server error ("DaemonSet": the old DaemonSet of a migration)
 	// MidEdit: a user edit of the reconciled ExtendedDaemonSet ("image:img:2", ...) that lands in the middle of the
 	// reconcile, right after its List of the replica sets. The controller works on the copy it read before; its later
 	// writes on the ExtendedDaemonSet itself meet the API server's optimistic concurrency: refused with a conflict.
@@ -196,8 +197,23 @@ type world struct {
 	// of settings are therefore re-decoded from the text (see verbatim).
 	rawMu          sync.Mutex
 	rawSettingSpec map[string]json.RawMessage
+	savedCanary    *v1alpha1.ExtendedDaemonSetSpecStrategyCanary // edit "canary:off" keeps the block for "canary:on"
 	midDone        bool   // the fault MidEdit was applied in this op
 	curOp          opSpec // the op being run
+}
+
+// getFails: the fault GetFail for the kind of obj, during a reconcile.
+func (w *world) getFails(obj client.Object) bool {
+	w.mu.Lock()
+	defer w.mu.Unlock()
+	if !w.inReconcile || w.faults == nil || len(w.faults.GetFail) == 0 {
+		return false
+	}
+	if _, ok := obj.(*appsv1.DaemonSet); ok {
+		return contains(w.faults.GetFail, "DaemonSet")
+	}
+
+	return false
 }
 
 // midEdit applies the fault MidEdit once per reconcile of the ExtendedDaemonSet controller.
@@ -532,6 +548,9 @@ func (w *world) build(objs []client.Object) {
 	_ = v1alpha1.AddToScheme(w.scheme)
 	funcs := interceptor.Funcs{
 		Get: func(ctx context.Context, c client.WithWatch, key client.ObjectKey, obj client.Object, opts ...client.GetOption) error {
+			if w.getFails(obj) {
+				return errInjected
+			}
 			err := c.Get(ctx, key, obj, opts...)
 			if st, ok := obj.(*v1alpha1.ExtendedDaemonsetSetting); ok && err == nil {
 				w.verbatim(st)
@@ -1088,7 +1107,8 @@ func (w *world) concurrent(op opSpec) {
 }
 
 // expand turns a wildcard reconcile ("name":"*" for the replica-set controller: every replica set of the
-// namespace, in name order rotated by "seconds") into one reconcile per object that exists now.
+// namespace, in name order rotated by "seconds"; seconds < 0: those that are not active first) into one reconcile per
+// object that exists now.
 func (w *world) expand(op opSpec) []opSpec {
 	if op.Op != "reconcile" || op.Name != "*" {
 		return []opSpec{op}
@@ -1118,6 +1138,17 @@ func (w *world) expand(op opSpec) []opSpec {
 	sort.Strings(names)
 	out := []opSpec{}
 	n := len(names)
+	if op.Ctrl == "ers" && op.Seconds < 0 {
+		// the adversarial order: the replica sets that are not the active one of their ExtendedDaemonSet first
+		var el v1alpha1.ExtendedDaemonSetList
+		_ = w.raw.List(ctx, &el, client.InNamespace(op.Ns))
+		active := map[string]bool{}
+		for i := range el.Items {
+			active[el.Items[i].Status.ActiveReplicaSet] = true
+		}
+		sort.SliceStable(names, func(i, j int) bool { return !active[names[i]] && active[names[j]] })
+		op.Seconds = 0
+	}
 	for i := 0; i < n; i++ {
 		x := op
 		x.Name = names[(i+int(op.Seconds))%n]
@@ -1140,12 +1171,64 @@ func (w *world) kubelet(op opSpec) error {
 	if err := w.raw.List(ctx, &pods); err != nil {
 		return err
 	}
+	activeRS := map[string]bool{}
+	if op.Kind == "active" {
+		var el v1alpha1.ExtendedDaemonSetList
+		_ = w.raw.List(ctx, &el)
+		for i := range el.Items {
+			activeRS[el.Items[i].Namespace+"/"+el.Items[i].Status.ActiveReplicaSet] = true
+		}
+	}
 	for i := range pods.Items {
 		p := &pods.Items[i]
 		if op.Seconds > 0 && int64(i)%op.Seconds != 0 {
 			continue
 		}
 		if op.Ns != "" && p.Namespace != op.Ns {
+			continue
+		}
+		// op.Kind "active": only the pods of an active replica set
+		if op.Kind == "active" && !activeRS[p.Namespace+"/"+p.Labels[v1alpha1.ExtendedDaemonSetReplicaSetNameLabelKey]] {
+			continue
+		}
+		// op.Kind "canary": only the pods carrying the canary label
+		if op.Kind == "canary" && p.Labels[v1alpha1.ExtendedDaemonSetReplicaSetCanaryLabelKey] != v1alpha1.ExtendedDaemonSetReplicaSetCanaryLabelValue {
+			continue
+		}
+		if op.Cmd == "restarted" || op.Cmd == "evict" {
+			// "restarted": the containers of a running pod restarted once (and run again); "evict": the kubelet evicted
+			// the pod (phase Failed, reason Evicted) - later kubelet passes leave a Failed pod alone
+			if p.Status.Phase != corev1.PodRunning || p.Spec.NodeName == "" || p.DeletionTimestamp != nil {
+				continue
+			}
+			now := metav1.NewTime(time.Now().Truncate(time.Second))
+			st := p.Status.DeepCopy()
+			if op.Cmd == "evict" {
+				st.Phase = corev1.PodFailed
+				st.Reason = "Evicted"
+				for i := range st.Conditions {
+					if st.Conditions[i].Type == corev1.PodReady {
+						st.Conditions[i].Status = corev1.ConditionFalse
+						st.Conditions[i].LastTransitionTime = now
+					}
+				}
+			} else {
+				if len(st.ContainerStatuses) == 0 {
+					for _, c := range p.Spec.Containers {
+						st.ContainerStatuses = append(st.ContainerStatuses, corev1.ContainerStatus{Name: c.Name, Ready: true,
+							State: corev1.ContainerState{Running: &corev1.ContainerStateRunning{StartedAt: now}}})
+					}
+				}
+				for i := range st.ContainerStatuses {
+					st.ContainerStatuses[i].RestartCount++
+					st.ContainerStatuses[i].LastTerminationState = corev1.ContainerState{Terminated: &corev1.ContainerStateTerminated{Reason: "Error", ExitCode: 1, FinishedAt: now}}
+				}
+			}
+			p.Status = *st
+			if err := w.raw.Status().Update(ctx, p); err != nil {
+				return err
+			}
+
 			continue
 		}
 		if op.Cmd == "hang" {
@@ -1304,6 +1387,20 @@ func (w *world) edit(op opSpec) error {
 			return fmt.Errorf("image edit needs an ExtendedDaemonSet with a container")
 		}
 		e.Spec.Template.Spec.Containers[0].Image = arg
+	case "canary":
+		// "canary:off" drops spec.strategy.canary (kept aside), "canary:on" puts it back
+		e, ok := obj.(*v1alpha1.ExtendedDaemonSet)
+		if !ok {
+			return fmt.Errorf("canary edit needs an ExtendedDaemonSet")
+		}
+		if arg == "off" {
+			if e.Spec.Strategy.Canary != nil {
+				w.savedCanary = e.Spec.Strategy.Canary.DeepCopy()
+			}
+			e.Spec.Strategy.Canary = nil
+		} else if w.savedCanary != nil {
+			e.Spec.Strategy.Canary = w.savedCanary.DeepCopy()
+		}
 	case "tmplname":
 		e, ok := obj.(*v1alpha1.ExtendedDaemonSet)
 		if !ok {
